@@ -23,6 +23,21 @@ ALIASES = ('A',)
 NUM_LITS = ('0', '1', '2', '3', '0.5', '1.5', '4', '10', '1.0', '2.0')
 STR_LITS = ('""', '"a"', '"ab"')
 
+# String contents as people write them: escapes of every kind (lark's ESCAPED_STRING admits a
+# backslash before ANY character), text that looks like the syntax of an output format or of HPL
+# itself, separators, non-ASCII. Used wherever a workload needs a string with "interesting" content.
+STRING_CONTENTS = (
+    'base_link', 'don\\\'t move', 'C:\\docs\\hpl\\arm.txt', '\\alpha < 1', 'matches \\d+ on /diag', '50\\%', 'caf\\u00e9',
+    'tab\\there', 'quote \\" inside', 'back\\\\slash', 'reading: NaN', 'limit:Infinity', '{\\"temp\\": -Infinity}',
+    'value: null', 'ok: true', 'a:b', 'x, y; z', '{ x > 1 }', '@A.x = 1', '# id: p1', 'globally: no a', 'NaN', 'Infinity', 'INF', 'within 10 ms',
+    'caf\u00e9 \u2192 max', '\u65e5\u672c', '100%', ' leading and trailing ', '', 'z' * 120, '<b>&amp;</b>', "it's", '\\/', 'line\\nbreak',
+)
+
+
+def string_literal(sim):
+    """A quoted string literal with content drawn from STRING_CONTENTS."""
+    return '"%s"' % sim.pick('strcontent', STRING_CONTENTS)
+
 ARITH = ('+', '-', '*', '/', '**')
 RELOPS = ('<', '<=', '>', '>=')
 EQOPS = ('=', '!=')
@@ -144,6 +159,9 @@ class ExprGen:
         self.trig_bias = trig_bias
         self.allow_consts = allow_consts
         self.qvars = []  # stack of (name, type)
+        self.unique_vars = True
+        self.free_vars = False
+        self.force_quantifier = None
         self.pool = {'bool': [], 'num': []}  # previously generated subterms (for duplication)
         self.vcount = 0
 
@@ -175,7 +193,11 @@ class ExprGen:
             opts.append((4, 'qvar'))
         if self.allow_consts:
             opts.append((0.5, 'const'))
+        if self.free_vars:
+            opts.append((0.8, 'freevar'))
         c = s.weighted('numleaf', opts)
+        if c == 'freevar':
+            return ('var', 'v%d' % (1 + s.choose('freev', 3)))
         if c == 'field':
             return self.ref(NUM_FIELDS)
         if c == 'lit':
@@ -218,6 +240,8 @@ class ExprGen:
 
     def str_leaf(self):
         if self.sim.coin('strlit', 0.5):
+            if self.sim.coin('richstr', 0.4):
+                return ('lit', 'str', string_literal(self.sim))
             return ('lit', 'str', self.sim.pick('strlitv', STR_LITS))
         return self.ref(STR_FIELDS)
 
@@ -364,7 +388,17 @@ class ExprGen:
         op = s.weighted('conn', [(4, 'and'), (4, 'or'), (2, 'implies'), (2, 'iff')])
         a = self.boolean(d + 1)
         if s.coin('trigb', self.trig_bias):
-            c = s.choose('trigbkind', 13)
+            c = s.choose('trigbkind', 15)
+            if c >= 13 and self.allow_quant and d + 2 < self.max_depth:
+                # sibling quantifiers over the same domain, same kind
+                dom = self.num_compound(d + 2)
+                self.force_quantifier = s.pick('sibq', ('forall', 'exists'))
+                try:
+                    q1 = self.quant(d + 1, dom)
+                    q2 = self.quant(d + 1, dom)
+                finally:
+                    self.force_quantifier = None
+                return ('bin', op, q1, q2)
             if c >= 11:
                 return ('bin', op, a, variant(s, a)) if c == 11 else ('bin', op, ('un', 'not', a), variant(s, a))
             if c >= 8:
@@ -473,12 +507,14 @@ class ExprGen:
                 return ('bin', op, a, ('un', 'not', a))
         return ('bin', op, a, g(d + 1))
 
-    def quant(self, d):
+    def quant(self, d, dom=None):
         s = self.sim
         self.vcount += 1
-        v = 'v%d' % self.vcount
-        dom = self.num_compound(d + 1)
-        q = s.pick('quantifier', ('forall', 'exists'))
+        # names are drawn from a small pool, so siblings may share a name and a FREE variable of that
+        # name may occur elsewhere in the term (spelling coincidences are part of the language)
+        v = 'v%d' % (self.vcount if self.unique_vars else 1 + s.choose('qvname', 3))
+        dom = dom if dom is not None else self.num_compound(d + 1)
+        q = self.force_quantifier or s.pick('quantifier', ('forall', 'exists'))
         self.qvars.append((v, 'num'))
         try:
             uk = s.choose('quse', 6)
@@ -688,7 +724,7 @@ def shrink_candidates(t):
 def _has_free_var(t, bound=()):
     k = t[0]
     if k == 'var':
-        return t[1] not in ALIASES and t[1] not in bound
+        return t[1] not in ALIASES and t[1] not in bound and t[1] not in FREE_VARS
     if k == 'quant':
         return _has_free_var(t[3], bound) or _has_free_var(t[4], bound + (t[2],))
     for _step, c in children_of(t):
@@ -732,6 +768,9 @@ def free_refs(t, acc=None):
         for _s, c in children_of(t):
             free_refs(c, acc)
     return acc
+
+
+FREE_VARS = ('v1', 'v2', 'v3')
 
 
 def make_message(sim, label='msg'):
@@ -936,7 +975,12 @@ class PropGen:
             keys = ['id', 'title', 'description']
             for i in s.permutation('metaorder', 3)[:s.randint('nmeta', 1, 3)]:
                 k = keys[i]
-                meta.append((k, 'p%d' % s.choose('pid', 100) if k == 'id' else '"%s %d"' % (k, s.choose('mv', 100))))
+                if k == 'id':
+                    meta.append((k, 'p%d' % s.choose('pid', 100)))
+                elif s.coin('richmeta', 0.4):
+                    meta.append((k, string_literal(s)))
+                else:
+                    meta.append((k, '"%s %d"' % (k, s.choose('mv', 100))))
         return {'meta': meta, 'scope': (scope, act, term), 'pattern': (pattern, trig, beh, bound)}
 
 
